@@ -81,7 +81,7 @@ func props() map[string]*PropSpec {
 		MustHit: []string{"ESDTNFTCreate/snd/ok", "ESDTNFTTransfer/dst/ok", "MultiESDTNFTTransfer/dst/ok", "ESDTNFTAddURI/snd/ok", "ESDTNFTUpdateAttributes/snd/ok"},
 		Faults:  "reorder/delay, refusal+refund, node restart"})
 	add(&PropSpec{ID: "C09", Level: "exploration", Steps: [2]int{40, 140}, QuickN: 24000, ThorN: 1200000,
-		Profile: base().With(map[string]float64{"tx:transfer": 22, "tx:nft": 22, "tx:multi": 26, "p:contract-caller": 0.5, "p:call": 0.45, "p:adv-dest": 0.2, "tx:create": 8, "p:fault": 0.04}),
+		Profile: base().With(map[string]float64{"tx:transfer": 22, "tx:nft": 22, "tx:multi": 26, "p:contract-caller": 0.5, "p:call": 0.45, "p:adv-dest": 0.2, "tx:create": 8, "p:fault": 0.04, "ev:upgrade": 2.5}),
 		Rule:    "seeded histories of transfers to payable / non-payable / erroring contracts, users, metachain, self and wrong-length addresses, all call types, with and without attached call, both execution sides; payability truth is the simulator's table, not the handler",
 		MustHit: []string{"ESDTTransfer/dst/err-required", "ESDTNFTTransfer/snd/err-required", "MultiESDTNFTTransfer/dst/err-required", "MultiESDTNFTTransfer/snd/err-required"},
 		Faults:  "erroring payability lookups (table state and injected IsPayable failures), refusal+refund, reorder/delay"})
